@@ -2,6 +2,7 @@ package checks
 
 import (
 	"fmt"
+	"math"
 	"math/rand"
 	"sync"
 	"sync/atomic"
@@ -139,7 +140,7 @@ func c30Model(c *ev.Ctx, r *rand.Rand, caseN int) {
 }
 
 func c30Blocking(c *ev.Ctx, r *rand.Rand, caseN int) {
-	kind := caseN % 9
+	kind := caseN % 10
 	T := time.Duration(60+r.Intn(60)) * time.Millisecond
 	const margin = time.Second
 	scenario := func() (string, map[string]interface{}) {
@@ -204,6 +205,35 @@ func c30Blocking(c *ev.Ctx, r *rand.Rand, caseN int) {
 			if p := s.Processing(); p.Num != 3 || p.Size != 80 {
 				d["processing"] = p.String()
 				return "held-amount-wrong-after-grant", d
+			}
+		case 9: // "wait for ever": the largest timeouts there are; the request waits until enough is released
+			huge := []time.Duration{math.MaxInt64, math.MaxInt64 - 1, 1 << 62, 250 * 365 * 24 * time.Hour}[caseN/10%4]
+			d["timeout"] = huge.String()
+			go func() { res <- s.Acquire(c30m(2, 50), huge) }()
+			time.Sleep(T / 3)
+			select {
+			case ok := <-res:
+				d["returned"], d["after"] = ok, took().String()
+				if ok {
+					return "unsatisfiable-request-granted", d
+				}
+				return "request-refused-before-its-timeout", d
+			default:
+			}
+			rel := time.Now()
+			s.Release(c30m(2, 30))
+			select {
+			case ok := <-res:
+				d["returned"], d["after_release"] = ok, time.Since(rel).String()
+				if !ok {
+					return "waiting-request-refused-although-enough-was-released-in-time", d
+				}
+				if time.Since(rel) > margin {
+					return "waiting-request-granted-too-late", d
+				}
+			case <-time.After(4 * time.Second):
+				s.Terminate()
+				return "waiting-request-not-granted-after-sufficient-release", d
 			}
 		case 8: // a request as large as the whole capacity (in one dimension) waits until everything is released, then is granted
 			req := c30m(4, 10)
@@ -361,7 +391,7 @@ func c30Blocking(c *ev.Ctx, r *rand.Rand, caseN int) {
 	c.Eval(1)
 	c.Count(fmt.Sprintf("blocking_scenarios_kind_%d", kind), 1)
 	if cls != "" {
-		detail["scenario_kind"] = []string{"fits", "oversize", "granted after release", "no release", "insufficient releases", "terminate", "two waiters with different timeouts", "over-release while a request waits", "request as large as the capacity"}[kind]
+		detail["scenario_kind"] = []string{"fits", "oversize", "granted after release", "no release", "insufficient releases", "terminate", "two waiters with different timeouts", "over-release while a request waits", "request as large as the capacity", "timeout of (nearly) the largest duration"}[kind]
 		c.Violation(cls, detail)
 		return
 	}
